@@ -371,6 +371,7 @@ public:
 
   void sendPing(const std::vector<std::uint8_t>& payload = {})
   {
+    if (payload.size() > 125) return; // drop: not a valid control frame (RFC 6455 5.5)
     if (_state.load() != WebSocketState::CONNECTED) return;
     auto frame = WebSocketFrame::makePing(payload);
     generateMaskKey(frame.maskKey);
